@@ -789,6 +789,15 @@ func registerIntrinsics(e *Engine) {
 	}
 	// --- os / logging: environment with empty bodies
 	in["os.Remove"] = func(fr *frame, args []value) value { return nilError() }
+	// os.Stat: only asked about directories of the scanner stub (they exist)
+	in["os.Stat"] = func(fr *frame, args []value) value {
+		m := fr.m
+		path := m.concreteString(args[0], "os.Stat path")
+		if m.dirs[path] == nil {
+			panic(unsupported("os.Stat of a path that is not a registered directory: " + path))
+		}
+		return tuple{iface{}, nilError()}
+	}
 	in["os.Getenv"] = func(fr *frame, args []value) value { return "" }
 	in["os.LookupEnv"] = func(fr *frame, args []value) value { return tuple{"", false} }
 	in["os.OpenFile"] = func(fr *frame, args []value) value {
